@@ -48,6 +48,10 @@ pub struct ElfSpec {
     /// the name of the build-id note section is the last string of the section name table (what
     /// `objcopy --add-section .note.gnu.build-id=...` produces: the name ends exactly where the table ends)
     pub note_name_last: bool,
+    /// linked without page alignment of the segments (`ld -n`): the first loadable segment starts
+    /// right behind the program headers, at a virtual address that is not a multiple of the page
+    /// size, with an alignment of 8; the kernel maps the file from the start of that page all the same
+    pub small_align: bool,
 }
 
 #[derive(Clone, Debug)]
@@ -221,9 +225,21 @@ pub fn build(spec: &ElfSpec) -> ElfImage {
         ph.push((PT_NOTE, 4, note_off, note_len, 4, tab_dv));
     }
     ph.push((PT_DYNAMIC, 6, dyn_off, dyn_len, 8, gap));
+    if spec.small_align && spec.with_pt_phdr {
+        // the program headers are not part of a segment in such an image
+        ph.remove(0);
+    }
     let phnum = ph.len() as u64;
-    if spec.with_pt_phdr {
+    if spec.with_pt_phdr && !spec.small_align {
         ph[0].3 = phnum * 56;
+    }
+    if spec.small_align {
+        let skip = phoff + phnum * 56;
+        if let Some(h) = ph.iter_mut().find(|h| h.0 == PT_LOAD) {
+            h.2 = skip;
+            h.3 = 0x1000 - skip;
+            h.4 = 8;
+        }
     }
     let lb = spec.link_base;
     for (i, (ty, fl, o, sz, al, dv)) in ph.iter().enumerate() {
